@@ -53,6 +53,9 @@ def c18(case, f):
         roots = {d.split(".")[0] for d in f.get("dups", [])}
         if roots and roots <= (feat["same_alias_subqueries"] | feat["case_subquery_aliases"]):
             return "KF-23"
+        # KF-23b: the legacy analyzer registers a CTE whose body is a set operation of parenthesised branches twice (whole body / first branch)
+        if case.get("dialect") == "non-validating" and roots and roots <= (feat["same_alias_subqueries"] | feat["case_subquery_aliases"] | feat["cte_paren_setop_names"]):
+            return "KF-23b"
     return None
 
 
